@@ -307,6 +307,8 @@ theorem period_kept_exec (c : Cfg) (s : State) (op : Op) (o : Owner) (ht : touch
   | guardStart n p => exact (keeps_guardStart s n p).periodOf o
   | guardStop n => exact (keeps_stopClear s _).periodOf o
   | disconnect => exact (keeps_disconnect c s).periodOf o
+  | exitWith w => exact (keeps_disconnect c s).periodOf o
+  | connect => cases o <;> rfl
 
 theorem period_kept_step (c : Cfg) (s : State) (op : Op) (o : Owner) (ht : touches o op = false) :
     periodOf (step c s op).1 o = periodOf s o := by
